@@ -123,6 +123,11 @@ def dom_boundary(chars=(b'x', b'7', b'-')):
     # numeric / mixed
     for d in (b'1', b'1.2', b'1.2.3.4', b'1a', b'1.a', b'1-2', b'0.', b'123.456.', b'1.2.3.4.5x'):
         out.append(d)
+    # all-numeric names of 1-9 labels, digit runs of 1-4 and of 63, with and without the root dot; the same with one letter / hyphen somewhere
+    for k in range(1, 10):
+        for w in (b'1', b'12', b'255', b'0001', b'9' * 63):
+            d = b'.'.join([w] * k)
+            out += [d, d + b'.', d + b'.a', b'a.' + d, d[:-1] + b'a', d.replace(b'.', b'-', 1)]
     out += long_name_shapes()
     return out
 
@@ -628,6 +633,10 @@ def idn_domains(rnd, n):
             out.append((ch * a + '.' + ch * a + '.' + ch * b + '.рф').encode())
             out.append((ch * a + '.' + ch * a + '.' + ch * b + '.com').encode())
     # malformed UTF-8 and over-long labels
+    # a refused (or merely unusual) A-label next to U-labels in the same name, in every position: what is checked must not depend on the other labels' spelling
+    for al in ('xn--7a', 'xn--ls8h', 'xn--n3h', 'xn--a', 'xn--i-7iq', 'xn--', 'xn--0', 'XN--7A', 'xn--80akhbyknj4f', 'xn--nxasmq6b', 'ab--c', 'xn--p1ai'):
+        for pat in ('%s.рф', 'é.%s.com', '%s.中国', 'я.%s', '%s.é.de', 'б.%s.рф', '%s.xn--p1ai', 'é.%s.xn--p1ai', '%s.com'):
+            out.append((pat % al).encode('utf-8'))
     out += [b'\xc3.com', b'a\xff.com', b'\xed\xa0\x80.com', b'\xf4\x90\x80\x80.com', b'\xc0\xaf.com', ('я' * 70 + '.рф').encode(), ('я' * 57 + '.рф').encode(),
             ('日' * 60 + '.com').encode(), b'xn--zz.com', b'xn--a.com', b'xn---abc.com', b'ab--c.com', b'-a.com', b'a-.com', b'xn--80akhbyknj4f.xn--p1ai']
     return out
